@@ -320,7 +320,7 @@ package calc
 //@   requires !c03All && !c03Some && !c03One && !c03Dirty
 //@   ghost at call markAllEndpointsDirty: c03All = true
 //@   ghost at call markEndpointsMatchingPolicyDirty: c03Some = true
-//@   ghost at call (*PolicySorter).OnUpdate: c03Dirty = c03Dirty || res
+//@   ghost at call PolicySorter).OnUpdate: c03Dirty = c03Dirty || res
 //@   ghost at call Add: c03One = true
 //@   ensures istype(update.KVPair.Key, model.TierKey) && !c03One ==> c03All
 //@   ensures istype(update.KVPair.Key, model.PolicyKey) && !c03One && c03Dirty ==> c03Some
